@@ -193,6 +193,11 @@ def part_bytes(sh, res):
         if p['error']:
             res.nontrivial += 1
             res.feat('byte_level_undecodable')
+        if p != j and p['error'] and j['error'] and p['error'].startswith('io:') and j['error'].startswith('io:') and p['error'].startswith('io:Unable to decode') != j['error'].startswith('io:Unable to decode'):
+            # the input has two defects at once (undecodable bytes AND defective quoting in an earlier record): both readers fail with an IO-handling error; which defect
+            # a streaming reader meets first depends on how far it has read, so the message is not compared
+            res.feat('byte_level_two_defects')
+            continue
         if p != j:
             res.violation('reader-disagreement', {'kind': 'read-bytes', 'hex': data.hex(), 'encoding': enc_py, 'policy': policy, 'dlm': dlm, 'js_mode': mode}, {'python': p}, {'js': j})
     if cases:
